@@ -1,0 +1,15 @@
+//go:build verif
+
+// Contracts for package post, checked by /verif/engine (gvc).  This file
+// contains comments only; it is compiled only with the "verif" build tag.
+package post
+
+// isMacRoman: true exactly for the standard Macintosh glyph order (same
+// length, same names) - only then may a format 1 post table be written.
+//@ func isMacRoman(names []string) (yes bool)   props: C14
+//@   ensures yes ==> len(names) == len(macRoman) && forall i int :: 0 <= i && i < len(macRoman) ==> names[i] == macRoman[i]
+//@   ensures !yes ==> len(names) != len(macRoman) || exists i int :: 0 <= i && i < len(macRoman) && names[i] != macRoman[i]
+//@   modifies nothing
+//@   loop 0
+//@     invariant len(names) == len(macRoman)
+//@     invariant forall k int :: 0 <= k && k < iter ==> names[k] == macRoman[k]
